@@ -180,7 +180,57 @@ def propagate_equalities(pc, goal, rounds=6):
 from contracts.etree_model import ETreeMixin
 
 
+OVERAPPROX = "c05!overapprox"
+_MARK_FN = {}
+_mark_ids = __import__("itertools").count()
+
+
+def marker(kind):
+    """A fresh atom `kind(k)` of an uninterpreted predicate: unconstrained (assuming it proves nothing) and not ground-evaluable,
+    so neither the solver's model nor random instantiation turns a path that carries it into a counter-example."""
+    f = _MARK_FN.get(kind)
+    if f is None:
+        f = _MARK_FN[kind] = z3.Function(kind, z3.IntSort(), z3.BoolSort())
+    return f(z3.IntVal(next(_mark_ids)))
+
+
 class SerExecutor(ETreeMixin, Executor):
+    # ------------------------------------------------ over-approximation marks --
+    # Every over-approximated continuation (EXC-ANY raise, unknown result of an unmodelled call, a loop cut without
+    # invariant, an abstracted expression, a merged state) assumes a fresh Bool named c05!overapprox...: proofs are
+    # unaffected, a `sat` answer on such a path is not a counter-example (solve.SAT_UNTRUSTED -> `unknown` -> native replay).
+    def mark(self, st):
+        st.assume(marker(OVERAPPROX))
+        return st
+
+    def exc_any(self, st, site, also=()):
+        t, c = self.uni.any_exception()
+        s2 = self.mark(st.fork().assume(c))
+        self.raise_in(s2, VExc(t, {"site": site}))
+        self.exc_any_sites.append(site)
+
+    def havoc_call(self, st, what, args, node):
+        outs = super().havoc_call(st, what, args, node)
+        for (s2, _v) in outs:
+            self.mark(s2)
+        return outs
+
+    def havoc_everything(self, st):
+        super().havoc_everything(st)
+        self.mark(st)
+
+    def merge_states(self, states):
+        return self.mark(super().merge_states(states))
+
+    def symbolic_for(self, s, st, it):
+        spec = self.loop_spec(s)
+        cut = spec is None or spec.inv is None or self.seq_view(st, it) is None
+        outs = super().symbolic_for(s, st, it)
+        if cut:
+            for o in outs:
+                self.mark(o.st)
+        return outs
+
     def __init__(self, *a, **k):
         super().__init__(*a, **k)
         self.witness_terms = {}
@@ -339,6 +389,13 @@ class SerExecutor(ETreeMixin, Executor):
             return [(st, PTok("cls", sp.norm(sp.ite((V.is_DC(v.t), V.cls(v.t)), sv("<builtin>")))))]
         return self.havoc_call(st, "type", args, node)
 
+    def to_str(self, st, v, formatted=False):
+        if isinstance(v, PV) and not formatted:          # f"{x}" == str(x)
+            r = self.b_str(st, v, None)
+            if r is not None:
+                return r
+        return super().to_str(st, v, formatted)
+
     def b_str(self, st, v, node):
         if isinstance(v, VStr):
             return v
@@ -463,6 +520,16 @@ class SerExecutor(ETreeMixin, Executor):
         return None
 
     def contains(self, st, container, item, node):
+        if isinstance(item, (PH, VType)) or (isinstance(item, VFunc) and item.how == "ext") or (isinstance(item, PTok) and item.what in ("origin", "cls")):
+            items = self.concrete_items(st, container)
+            if items is not None:
+                terms = []
+                for x in items:
+                    r = self._type_identity(item, x)
+                    if r is None:
+                        r = self._identity(st, item, x, node)
+                    terms.append(r if r is not None else F)
+                return [(st, VBool(sp.norm(z3.Or(terms + [F]))))]
         if isinstance(container, PV):
             tt = container.t
             if isinstance(item, VStr):
@@ -547,6 +614,9 @@ class SerExecutor(ETreeMixin, Executor):
             i = z3.Int("i!units")
             st.assume(z3.ForAll([i], sp.SEROK(UNIT(tt, i)), patterns=[UNIT(tt, i)]))
             return [(st, VSeq(n, lambda j, tt=tt: PV(UNIT(tt, j)), "unit"))]
+        if name == "getvalue" and not args:
+            s2 = self.fork_raise(st, sp.norm(z3.Not(V.is_BytesIO(tt))), "AttributeError")
+            return [] if s2 is None else [(s2, PTok("bin", sp.norm(V.iop(tt))))]     # whole payload, position untouched
         if name in ("tell", "seek", "read"):
             s2 = self.fork_raise(st, sp.norm(z3.Not(V.is_BytesIO(tt))), "AttributeError")
             if s2 is None:
@@ -670,6 +740,8 @@ class SerExecutor(ETreeMixin, Executor):
             return ("kv", it.a)
         if isinstance(it, PTok) and it.what == "clsfields":
             return ("clsfields", it.a)
+        if isinstance(it, PTok) and it.what == "nameset":
+            return ("nameset", it.a)
         if isinstance(it, VSeq):
             return ("seq", it)
         return None
@@ -689,6 +761,9 @@ class SerExecutor(ETreeMixin, Executor):
                     self.unsupported(n, "comprehension iterable of mixed kinds")
                 return None
             handled = True
+            if view[0] == "nameset":
+                outs.extend(self._comp_over_nameset(n, g, s2, view[1], kind))
+                continue
             if g.ifs:
                 self.unsupported(n, "filtered comprehension over a symbolic collection")
             outs.extend(self._comp_over(n, g, s2, view, kind))
@@ -702,8 +777,8 @@ class SerExecutor(ETreeMixin, Executor):
         if what == "seq":
             return self._comp_over_seq(n, g, st, coll, kind)
         if what == "clsfields":
-            if kind != "set" or ast.unparse(n.elt) != f"{ast.unparse(g.target)}.name":
-                self.unsupported(n, "comprehension over fields(cls) other than the set of field names")
+            if kind == "dict" or ast.unparse(n.elt) != f"{ast.unparse(g.target)}.name":
+                self.unsupported(n, "comprehension over fields(cls) other than the collection of field names")
             return [(st, PTok("nameset", coll))]
         # arbitrary element
         if what == "list":
@@ -751,9 +826,51 @@ class SerExecutor(ETreeMixin, Executor):
             goal = z3.And(kk.t == spec["key"](ek), vt == spec["elem"](ev_)) if isinstance(kk, VStr) and vt is not None else F
             result = PV(sp.norm(V.Dict(spec["map"](coll))))
         # keys of V mappings are strings: str(key) == key
-        self.add_vc("comp-elementwise", f"{kind}comp-{self.comp_ordinal(n)}", s_el.pc, goal,
+        self.add_vc("comp-elementwise", "list-elements" if what == "list" else "mapping-entries", s_el.pc, goal,
                     note=f"{self.loc(n)} element expression differs from the element function of the specified map", loc=self.loc(n))
         return [(st, result)]
+
+    def _comp_over_nameset(self, n, g, st, cn, kind):
+        """{name: E(name) for name in <field names of cn> [if C(name)]}: a keyword map characterised pointwise."""
+        from pyvc.state import Frame
+        if kind != "dict":
+            self.unsupported(n, "non-dict comprehension over a set of field names")
+        nm = z3.String(fresh_name("fname"))
+        body = st.fork()
+        body.frames.append(Frame({}, len(body.frames) - 1, body.frame.fnode))
+        body.assume(sp.MEMS(sp.FIELDS(cn), nm))
+        live = self.assign(g.target, VStr(nm), body)
+        if len(live) != 1:
+            self.unsupported(n, "comprehension target")
+        cur, conds = live[0], []
+        for cond in g.ifs:
+            r = self.ev(cond, cur)
+            if len(r) != 1:
+                self.unsupported(n, "forking filter of a comprehension over field names")
+            cur, cv = r[0]
+            t = self.truth(cur, cv).t
+            conds.append(t)
+            cur.assume(t)
+        rk = self.ev(n.key, cur)
+        if len(rk) != 1 or not isinstance(rk[0][1], VStr) or not rk[0][1].t.eq(nm):
+            self.unsupported(n, "key of a comprehension over field names is not the name itself")
+        rv = self.ev(n.value, rk[0][0])
+        if len(rv) != 1:
+            self.unsupported(n, "forking value of a comprehension over field names")
+        vt = self.to_pv(rv[0][0], rv[0][1])
+        if vt is None:
+            self.unsupported(n, "value of a comprehension over field names")
+        cond = sp.norm(z3.And(conds + [T]))
+        has = z3.Const(fresh_name("has"), z3.ArraySort(sp.S, sp.B))
+        val = z3.Const(fresh_name("val"), z3.ArraySort(sp.S, V))
+        hook = getattr(self.contract, "nameset_comp", None) if self.contract is not None else None
+        if hook is None or not hook(self, st, cn, nm, cond, sp.norm(vt), has, val):
+            q = z3.String("q!kwc")
+            sub = lambda e: z3.substitute(e, (nm, q))
+            st.assume(z3.ForAll([q], z3.And(z3.Select(has, q) == z3.And(sp.MEMS(sp.FIELDS(cn), q), sub(cond)),
+                                            z3.Implies(z3.Select(has, q), z3.Select(val, q) == sub(vt))), patterns=[z3.Select(has, q)]))
+        ref = st.alloc(HeapObj("pvmap", (has, val)), self.refs)
+        return [(st, VRef(ref))]
 
     def _comp_over_seq(self, n, g, st, seq, kind):
         """Comprehension over an index-based symbolic sequence (CLI result lists): result is the index-wise map."""
@@ -822,11 +939,129 @@ class SerExecutor(ETreeMixin, Executor):
         return outs
 
     # ---------------------------------------------------------------- loops --
+    # -------------------------------------------------- loop == comprehension --
+    @staticmethod
+    def loop_comp_expr(s, acc_hint=None):
+        """(accumulator name, comprehension AST) for a loop of the shape `for x in C: [t = e]* ; acc.append(E) | acc[K] = E`
+        (inner `acc2 = [] ; for ...` pairs are folded first), or None."""
+        import copy
+        if s.orelse or not s.body:
+            return None
+        body = SerExecutor.fold_accumulations(s.body)
+        *temps, last = body
+        tmap = {}
+        for t in temps:
+            if isinstance(t, ast.Assign) and len(t.targets) == 1 and isinstance(t.targets[0], ast.Name):
+                name, val = t.targets[0].id, t.value
+            elif isinstance(t, ast.AnnAssign) and isinstance(t.target, ast.Name) and t.value is not None:
+                name, val = t.target.id, t.value
+            else:
+                return None
+            if name in tmap:
+                return None
+            tmap[name] = val
+        acc = key = elt = None
+        if isinstance(last, ast.Expr) and isinstance(last.value, ast.Call) and isinstance(last.value.func, ast.Attribute) \
+                and last.value.func.attr == "append" and isinstance(last.value.func.value, ast.Name) and len(last.value.args) == 1 and not last.value.keywords:
+            acc, elt = last.value.func.value.id, last.value.args[0]
+        elif isinstance(last, ast.Assign) and len(last.targets) == 1 and isinstance(last.targets[0], ast.Subscript) \
+                and isinstance(last.targets[0].value, ast.Name) and not isinstance(last.targets[0].slice, ast.Slice):
+            acc, key, elt = last.targets[0].value.id, last.targets[0].slice, last.value
+        else:
+            return None
+        if acc_hint is not None and acc != acc_hint:
+            return None
+        used = {n.id for part in [s.iter, elt] + ([key] if key is not None else []) + list(tmap.values()) for n in ast.walk(part) if isinstance(n, ast.Name)}
+        if acc in used or acc in tmap or any(isinstance(n, (ast.Yield, ast.YieldFrom, ast.NamedExpr, ast.Await, ast.Break, ast.Continue))
+                                                for part in body for n in ast.walk(part)):
+            return None
+
+        class Sub(ast.NodeTransformer):
+            def visit_Name(self_, n):
+                if isinstance(n.ctx, ast.Load) and n.id in tmap:
+                    return self_.visit(copy.deepcopy(tmap[n.id]))
+                return n
+        elt2 = Sub().visit(copy.deepcopy(elt))
+        gen = ast.comprehension(target=s.target, iter=s.iter, ifs=[], is_async=0)
+        comp = ast.ListComp(elt=elt2, generators=[gen]) if key is None else ast.DictComp(key=Sub().visit(copy.deepcopy(key)), value=elt2, generators=[gen])
+        ast.copy_location(comp, s)
+        ast.fix_missing_locations(comp)
+        return acc, comp, key is not None
+
+    @staticmethod
+    def fold_accumulations(stmts):
+        """`x = [] / {}` immediately followed by an accumulation loop on x  ==>  `x = <comprehension>` (exact)."""
+        out, i = [], 0
+        while i < len(stmts):
+            a = stmts[i]
+            nxt = stmts[i + 1] if i + 1 < len(stmts) else None
+            name = val = None
+            if isinstance(a, ast.Assign) and len(a.targets) == 1 and isinstance(a.targets[0], ast.Name):
+                name, val = a.targets[0].id, a.value
+            elif isinstance(a, ast.AnnAssign) and isinstance(a.target, ast.Name) and a.value is not None:
+                name, val = a.target.id, a.value
+            empty_list = isinstance(val, ast.List) and not val.elts or (isinstance(val, ast.Call) and getattr(val.func, "id", None) == "list" and not val.args and not val.keywords)
+            empty_dict = isinstance(val, ast.Dict) and not val.keys or (isinstance(val, ast.Call) and getattr(val.func, "id", None) == "dict" and not val.args and not val.keywords)
+            if name and (empty_list or empty_dict) and isinstance(nxt, ast.For):
+                r = SerExecutor.loop_comp_expr(nxt, acc_hint=name)
+                if r is not None and r[2] == bool(empty_dict):
+                    new = ast.Assign(targets=[ast.Name(id=name, ctx=ast.Store())], value=r[1])
+                    ast.copy_location(new, a)
+                    ast.fix_missing_locations(new)
+                    out.append(new)
+                    i += 2
+                    continue
+            out.append(a)
+            i += 1
+        return out
+
+    def exec_block(self, stmts, st):
+        key = id(stmts)
+        cache = self.__dict__.setdefault("_fold_cache", {})
+        if key not in cache:
+            try:
+                folded = self.fold_accumulations(list(stmts))
+            except Exception:  # noqa  (an unexpected AST shape: leave the block as it is)
+                folded = list(stmts)
+            cache[key] = (stmts, folded if len(folded) != len(stmts) else stmts)
+        return super().exec_block(cache[key][1], st)
+
+    def loop_as_comprehension(self, s, st, it):
+        """Accumulation loop over a symbolic collection into a fresh, unaliased, still empty accumulator == comprehension."""
+        if self._iter_view(st, it) is None:
+            return None
+        r = self.loop_comp_expr(s)
+        if r is None:
+            return None
+        acc, comp, is_dict = r
+        cur = st.frame.env.get(acc)
+        if not isinstance(cur, VRef):
+            return None
+        o = st.obj(cur.ref)
+        if not ((o.kind == "list" and not is_dict and o.data == []) or (o.kind == "dict" and is_dict and o.data == {})) or not o.fresh:
+            return None
+        for fr in st.frames:                       # no alias of the accumulator
+            for nm, v in fr.env.items():
+                if isinstance(v, VRef) and v.ref == cur.ref and not (fr is st.frame and nm == acc):
+                    return None
+        outs = []
+        for (s2, v) in self.ev(comp, st):
+            s2.bind(acc, v)
+            outs.append(Outcome("fall", s2))
+        return outs
+
     def s_For(self, s, st):
         outs = []
         for (s2, it) in self.ev(s.iter, st):
+            as_comp = self.loop_as_comprehension(s, s2, it)
+            if as_comp is not None:
+                outs.extend(as_comp)
+                continue
+            if isinstance(it, PTok) and it.what == "clsfields":
+                outs.extend(self.for_nameset(s, s2, it.a, as_field=True))
+                continue
             if isinstance(it, PTok) and it.what == "fields":
-                outs.extend(self.for_fields(s, s2, it.a))
+                outs.extend(self.for_fields(s, s2, it.a, it.b))
             elif isinstance(it, PTok) and it.what == "nameset":
                 outs.extend(self.for_nameset(s, s2, it.a))
             else:
@@ -837,15 +1072,23 @@ class SerExecutor(ETreeMixin, Executor):
                     outs.extend(self.symbolic_for(s, s2, it))
         return outs
 
-    def for_fields(self, s, st, fs):
-        """for f in fields(obj): prefix induction over the field list fs.
-        The invariant sees lc.extra['done'] (KV term: the processed prefix) and lc.extra['all']."""
+    def kind_loop_spec(self, s, kind):
+        """Invariant of a loop identified by WHAT it iterates (fields of an instance / a set of field names), wherever the
+        loop lives (the function under contract or a helper executed in place) -- not by its ordinal or by local names."""
         spec = self.loop_spec(s)
+        if spec is not None and spec.inv is not None:
+            return spec
+        return getattr(self.contract, kind + "_loop", None) if self.contract is not None else None
+
+    def for_fields(self, s, st, fs, obj=None):
+        """for f in fields(obj): prefix induction over the field list fs.
+        The invariant sees lc.extra['done'] (KV term: the processed prefix), lc.extra['all'] and lc.extra['obj']."""
+        spec = self.kind_loop_spec(s, "fields")
         if spec is None or spec.inv is None:
             self.unsupported(s, "loop over the fields of a dataclass instance needs an invariant")
         entry = st.fork()
         label = spec.label or f"L{s.lineno}"
-        self.add_vc("inv-init", label, st.pc, self._b(spec.inv(LoopCtx(self, st, None, entry, extra={"done": KV.knil, "all": fs}))), loc=self.loc(s))
+        self.add_vc("inv-init", label, st.pc, self._b(spec.inv(LoopCtx(self, st, None, entry, extra={"done": KV.knil, "all": fs, "obj": obj}))), loc=self.loc(s))
         outs = []
         body = st.fork()
         before = dict(body.heap)
@@ -856,7 +1099,7 @@ class SerExecutor(ETreeMixin, Executor):
         fk, fv = z3.String(fresh_name("fname")), z3.Const(fresh_name("fval"), V)
         rest = z3.Const(fresh_name("rest"), KV)
         body.assume(fs == sp.APP(done, KV.kcons(fk, fv, rest)))
-        body.assume(self._b(spec.inv(LoopCtx(self, body, None, entry, extra={"done": done, "all": fs}))))
+        body.assume(self._b(spec.inv(LoopCtx(self, body, None, entry, extra={"done": done, "all": fs, "obj": obj}))))
         lf = getattr(self.contract, "loop_facts", None)
         if lf is not None:
             for fct in lf(self, body, entry, (done, fk, fv, rest)):
@@ -865,13 +1108,13 @@ class SerExecutor(ETreeMixin, Executor):
             for o in self.exec_block(s.body, s3):
                 if o.kind in ("fall", "continue"):
                     d2 = sp.APP(done, KV.kcons(fk, fv, KV.knil))
-                    self.add_vc("inv-preserve", label, o.st.pc, self._b(spec.inv(LoopCtx(self, o.st, None, entry, extra={"done": d2, "all": fs, "step": (done, fk, fv, rest)}))),
+                    self.add_vc("inv-preserve", label, o.st.pc, self._b(spec.inv(LoopCtx(self, o.st, None, entry, extra={"done": d2, "all": fs, "obj": obj, "step": (done, fk, fv, rest)}))),
                                 loc=self.loc(s))
                 elif o.kind == "break":
                     self.unsupported(s, "break in a loop over dataclass fields")
                 else:
                     outs.append(o)
-        after.assume(self._b(spec.inv(LoopCtx(self, after, None, entry, extra={"done": fs, "all": fs}))))
+        after.assume(self._b(spec.inv(LoopCtx(self, after, None, entry, extra={"done": fs, "all": fs, "obj": obj}))))
         if s.orelse:
             outs.extend(self.exec_block(s.orelse, after))
         else:
@@ -888,10 +1131,10 @@ class SerExecutor(ETreeMixin, Executor):
             elif o is not None and o.kind == "pvmap":
                 st.heap[ref] = HeapObj("pvmap", (z3.Const(fresh_name("has"), z3.ArraySort(sp.S, sp.B)), z3.Const(fresh_name("val"), z3.ArraySort(sp.S, V))), None, o.fresh)
 
-    def for_nameset(self, s, st, cls):
+    def for_nameset(self, s, st, cls, as_field=False):
         """for name in {f.name for f in fields(cls)}: every field name exactly once, in arbitrary order.
         Invariant sees lc.extra['seen'] (Array String->Bool: processed names)."""
-        spec = self.loop_spec(s)
+        spec = self.kind_loop_spec(s, "nameset")
         if spec is None or spec.inv is None:
             self.unsupported(s, "loop over a set of field names needs an invariant")
         entry = st.fork()
@@ -916,7 +1159,7 @@ class SerExecutor(ETreeMixin, Executor):
         body.assume(z3.ForAll([q], z3.Implies(z3.Select(seen, q), isfield(q)), patterns=[z3.Select(seen, q)]))
         body.assume(z3.And(isfield(nm), z3.Not(z3.Select(seen, nm))))
         body.assume(self._b(spec.inv(LoopCtx(self, body, None, entry, extra={"seen": seen, "cls": cls}))))
-        for s3 in self.assign(s.target, VStr(nm), body):
+        for s3 in self.assign(s.target, PTok("field", nm, None) if as_field else VStr(nm), body):
             for o in self.exec_block(s.body, s3):
                 if o.kind in ("fall", "continue"):
                     self.add_vc("inv-preserve", label, o.st.pc, self._b(spec.inv(LoopCtx(self, o.st, None, entry, extra={"seen": z3.Store(seen, nm, T), "cls": cls}))),
